@@ -147,11 +147,18 @@ def run(ctx):
                                 omega, dt, B0, err), dict(m0, omega=omega, dt=dt))
                 # (c) theta-only potentials: pure radial displacement
                 g = st.wrap([rng.randint(-4, 4) for _ in range(st.nb)])
-                gp = [st.spline(g, x, 1) for x in xt]          # d phi / d xi at the nodes (exact)
-                for dt, B0p in ((0.5, 1.0), (-0.75, 1.0), (1.0, 0.5)) if not quick else ((0.5, 1.0), (-0.75, 1.0)):
-                    op = mk(B0p / ht)
+                # ONE operator object for the whole sequence of steps (different dt and potentials): a step must be a function
+                # of its arguments only, whatever the object did before
+                ops = {}
+                g2 = st.wrap([rng.randint(-4, 4) for _ in range(st.nb)])
+                seq = ((0.5, 1.0, g), (-0.75, 1.0, g), (0.5, 1.0, g2), (-0.5, 1.0, g), (1.0, 0.5, g2)) if not quick else ((0.5, 1.0, g), (-0.75, 1.0, g), (0.75, 1.0, g2))
+                for dt, B0p, gg in seq:
+                    if B0p not in ops:
+                        ops[B0p] = mk(B0p / ht)
+                    op = ops[B0p]
+                    gp = [st.spline(gg, x, 1) for x in xt]
                     phi = spl.Spline2D(bt, br)
-                    phi.coeffs[:] = np.array([[float(g[a])] * sr.nb for a in range(st.nb)])
+                    phi.coeffs[:] = np.array([[float(gg[a])] * sr.nb for a in range(st.nb)])
                     f = f0.copy()
                     done = capped(lambda: op.step(f, dt, phi, vval))
                     if not done:
